@@ -138,6 +138,26 @@ end Godi.Container
 
 namespace Godi.Container
 
+theorem markAbsent_sing (st : State) (L : Ledger st) (s : Nat) (sibs0 : List Desc) (nil? : Option Nat)
+    (h : ∀ d ∈ sibs0, d.life = .singleton) :
+    LStep st (markAbsent st s sibs0 nil?) ∧ ShapeSame st (markAbsent st s sibs0 nil?) ∧
+    Grows st.singletons (markAbsent st s sibs0 nil?).singletons := by
+  refine ⟨lstep_markAbsent st L s sibs0 nil?, ?_, ?_⟩
+  · unfold markAbsent
+    split
+    · split
+      next dk hk =>
+        unfold shareInstance; simp only [h dk (List.mem_of_getElem? hk)]; exact ⟨rfl, rfl, rfl, rfl, rfl, rfl⟩
+      · exact ShapeSame.refl st
+    · exact ShapeSame.refl st
+  · unfold markAbsent
+    split
+    · split
+      next dk hk =>
+        unfold shareInstance; simp only [h dk (List.mem_of_getElem? hk)]; exact grows_put _ _ _
+      · exact Grows.refl _
+    · exact Grows.refl _
+
 /-- the shape of the state while Build creates the singletons: one scope (the root), nothing closed -/
 structure BuildShape (descs : List Desc) (st : State) : Prop where
   descsEq : st.descs = descs
@@ -219,18 +239,19 @@ theorem create_sing_lstep (beh : Beh) (f : Nat) (st : State) (d : Desc) (wf : WF
             split
             · intro sd hsd; simp at hsd; subst hsd; exact hl
             · exact hsiblife _ hd2
-          have hmulti : ∀ sibs' : List Desc, (∀ sd ∈ sibs', sd.life = .singleton) →
-              LStep st (storeOuts
+          have hmulti : ∀ (sibs' sibs0 : List Desc) (nil? : Option Nat), (∀ sd ∈ sibs', sd.life = .singleton) →
+              (∀ sd ∈ sibs0, sd.life = .singleton) →
+              LStep st (markAbsent (storeOuts
                 (logEv (alloc (bumpInv ra.1 d.ctor) sibs'.length d.ctor ((bumpInv ra.1 d.ctor).invs d.ctor))
                   (.ctor d.id d.ctor ((bumpInv ra.1 d.ctor).invs d.ctor) rootScope args
                     (allocOuts (bumpInv ra.1 d.ctor).next sibs'.length)))
-                rootScope sibs' (allocOuts (bumpInv ra.1 d.ctor).next sibs'.length)).1 ∧
-              BuildShape descs (storeOuts
+                rootScope sibs' (allocOuts (bumpInv ra.1 d.ctor).next sibs'.length)).1 rootScope sibs0 nil?) ∧
+              BuildShape descs (markAbsent (storeOuts
                 (logEv (alloc (bumpInv ra.1 d.ctor) sibs'.length d.ctor ((bumpInv ra.1 d.ctor).invs d.ctor))
                   (.ctor d.id d.ctor ((bumpInv ra.1 d.ctor).invs d.ctor) rootScope args
                     (allocOuts (bumpInv ra.1 d.ctor).next sibs'.length)))
-                rootScope sibs' (allocOuts (bumpInv ra.1 d.ctor).next sibs'.length)).1 := by
-            intro sibs' hlife'
+                rootScope sibs' (allocOuts (bumpInv ra.1 d.ctor).next sibs'.length)).1 rootScope sibs0 nil?) := by
+            intro sibs' sibs0 nil? hlife' hlife0
             have h3a := lstep_alloc _ h2.ledger sibs'.length d.ctor ((bumpInv ra.1 d.ctor).invs d.ctor)
             have h3 := h3a.trans (lstep_logCtor _ h3a.ledger d.id d.ctor ((bumpInv ra.1 d.ctor).invs d.ctor) rootScope args
               (allocOuts (bumpInv ra.1 d.ctor).next sibs'.length))
@@ -249,11 +270,14 @@ theorem create_sing_lstep (beh : Beh) (f : Nat) (st : State) (d : Desc) (wf : WF
               rw [closedCount_append, closedCount_ctor]; exact hf2.2
             obtain ⟨h4, sh4⟩ := storeOuts_sing_lstep rootScope sibs' (allocOuts (bumpInv ra.1 d.ctor).next sibs'.length) _
               h3.ledger hlife' (allocOuts_nodup _ _) hfr
-            exact ⟨(h2.trans h3).trans h4,
-              B2.of_shape (((shapeSame_alloc _ _ _ _).trans (shapeSame_logEv _ _)).trans sh4)⟩
+            obtain ⟨h5, sh5, _⟩ := markAbsent_sing _ h4.ledger rootScope sibs0 nil? hlife0
+            exact ⟨((h2.trans h3).trans h4).trans h5,
+              B2.of_shape ((((shapeSame_alloc _ _ _ _).trans (shapeSame_logEv _ _)).trans sh4).trans sh5)⟩
+          generalize (if (d.sibs.filterMap (findDesc (bumpInv ra.1 d.ctor).descs)).isEmpty then [d]
+              else d.sibs.filterMap (findDesc (bumpInv ra.1 d.ctor).descs)) = sibs0 at h0 ⊢
           cases beh.nilField d.ctor ((bumpInv ra.1 d.ctor).invs d.ctor) with
-          | none => exact hmulti _ h0
-          | some k => exact hmulti _ (fun sd hsd => h0 sd (List.mem_of_mem_eraseIdx hsd))
+          | none => exact hmulti sibs0 sibs0 none h0 h0
+          | some k => exact hmulti (sibs0.eraseIdx k) sibs0 (some k) (fun sd hsd => h0 sd (List.mem_of_mem_eraseIdx hsd)) h0
         · -- plain
           have h3a := lstep_alloc _ h2.ledger 1 d.ctor ((bumpInv ra.1 d.ctor).invs d.ctor)
           have h3 := h3a.trans (lstep_logCtor _ h3a.ledger d.id d.ctor ((bumpInv ra.1 d.ctor).invs d.ctor) rootScope args
@@ -310,9 +334,18 @@ theorem create_sing_grows (beh : Beh) (f : Nat) (st : State) (s : Nat) (d : Desc
         · exact g0.trans (setInstance_singleton (fun _ => True)
             (logEv (bumpInv ra.1 d.ctor) (.ctor d.id d.ctor ((bumpInv ra.1 d.ctor).invs d.ctor) s args [])) s d d.ident .unit
             hl trivial).1.grows
-        · have hmulti : ∀ (sibs' : List Desc) (outs : List Inst) (st3 : State), st3.singletons = ra.1.singletons →
-              (∀ sd ∈ sibs', sd.life = .singleton) → Grows st.singletons (storeOuts st3 s sibs' outs).1.singletons := by
-            intro sibs' outs st3 he hlife
+        · have hmulti : ∀ (sibs' sibs0 : List Desc) (nil? : Option Nat) (outs : List Inst) (st3 : State),
+              st3.singletons = ra.1.singletons → (∀ sd ∈ sibs', sd.life = .singleton) → (∀ sd ∈ sibs0, sd.life = .singleton) →
+              Grows st.singletons (markAbsent (storeOuts st3 s sibs' outs).1 s sibs0 nil?).singletons := by
+            intro sibs' sibs0 nil? outs st3 he hlife hlife0
+            refine Grows.trans ?_ (by
+              unfold markAbsent
+              split
+              · split
+                next dk hk =>
+                  unfold shareInstance; simp only [hlife0 dk (List.mem_of_getElem? hk)]; exact grows_put _ _ _
+                · exact Grows.refl _
+              · exact Grows.refl _)
             have : ∀ (sibs : List Desc) (outs : List Inst) (st3 : State), (∀ sd ∈ sibs, sd.life = .singleton) →
                 Grows st3.singletons (storeOuts st3 s sibs outs).1.singletons := by
               intro sibs
@@ -335,9 +368,11 @@ theorem create_sing_grows (beh : Beh) (f : Nat) (st : State) (s : Nat) (d : Desc
             split
             · intro sd hsd; simp at hsd; subst hsd; exact hl
             · exact fun sd hsd => (hsib _ hd2 sd hsd).1
+          generalize (if (d.sibs.filterMap (findDesc (bumpInv ra.1 d.ctor).descs)).isEmpty then [d]
+              else d.sibs.filterMap (findDesc (bumpInv ra.1 d.ctor).descs)) = sibs0 at h0 ⊢
           cases beh.nilField d.ctor ((bumpInv ra.1 d.ctor).invs d.ctor) with
-          | none => exact hmulti _ _ _ rfl h0
-          | some k => exact hmulti _ _ _ rfl (fun sd hsd => h0 sd (List.mem_of_mem_eraseIdx hsd))
+          | none => exact hmulti sibs0 sibs0 none _ _ rfl h0 h0
+          | some k => exact hmulti (sibs0.eraseIdx k) sibs0 (some k) _ _ rfl (fun sd hsd => h0 sd (List.mem_of_mem_eraseIdx hsd)) h0
         · obtain ⟨h1, _, ok1⟩ := setInstance_singleton (fun _ => True)
             (logEv (alloc (bumpInv ra.1 d.ctor) 1 d.ctor ((bumpInv ra.1 d.ctor).invs d.ctor))
               (.ctor d.id d.ctor ((bumpInv ra.1 d.ctor).invs d.ctor) s args [(bumpInv ra.1 d.ctor).next])) s d d.ident
@@ -470,6 +505,8 @@ theorem buildLedger_loop (beh : Beh) (descs : List Desc) (wf : WF descs) (rw' : 
       · exact ih st inv
       next hl =>
         have hl' : d.life = .singleton := by simpa using hl
+        split
+        · exact ⟨inv, LStep.refl inv.ledger⟩
         split
         · exact ih st inv
         next hn =>
